@@ -631,15 +631,18 @@ def monitors(ctx: fw.Ctx, sc: dict, w: cw.World, report: Any = None) -> list[dic
                 out |= set(e['reason'] or [])
         return out
 
+    close_seq = getattr(w, 'close_seq', INF)
+
     def ended_seq(i: dict) -> int:
         for e in log:
             if e['kind'] == 'end' and e['ser'] == i['ser']:
-                return e['seq']
+                return e['seq'] if e['seq'] <= close_seq else INF      # ended by the harness' clean-up: still running
         return INF
 
     def spawn_seq(i: dict) -> int:
         return next(e['seq'] for e in log if e['kind'] == 'spawn' and e['ser'] == i['ser'])
     eseq = {i['ser']: ended_seq(i) for i in insts}
+    insts = [{**i, 'ended': i['ended'] if eseq[i['ser']] < INF else None} for i in insts]
     sseq = {i['ser']: spawn_seq(i) for i in insts}
 
     # --- M6: never stalls or crashes
